@@ -148,7 +148,7 @@ def choose_rows(rnd, p1, psim, cfgs, classes, n, thorough):
         else:
             cfg = STD if u < 0.4 else kec[rnd.randrange(len(kec))] if u < 0.52 else nozk[rnd.randrange(len(nozk))]
         rows.append({"id": "c%d" % i, "prog": p, "cfg": cfg, "inputs": classes[rnd.randrange(len(classes))],
-                     "fallback": dict(STD, keccak=cfg["keccak"])})
+                     "fallback": dict(STD, keccak=cfg["keccak"], zk=cfg["zk"], q=3 if cfg["zk"] else 28)})
     return rows
 
 
